@@ -71,6 +71,10 @@ def run(V, tier, sd, pid):
     if res.violated:
         raise tlc.TLCError(f"JdesSearch.tla violates {res.violated}")
     V.model(res, "JdesSearch.tla (all scheduler functions nf: Lo..Hi -> 0..MaxNf)")
+    rl = tlc.run_model("JdesSearch", f"{pid}_jdes_live", constants=dict(consts, Hi=5, EmitRuns=False), properties=["Terminates"], spec="FairSpec")
+    if rl.violated:
+        raise tlc.TLCError(f"JdesSearch.tla: the search does not terminate: {rl.violated}")
+    V.model(rl, "JdesSearch.tla FairSpec => <>(pc = done)")
     runs = res.json_prints()
     out = common.pmap(replay_run, runs, chunksize=512)
     for r, (bad, probes, got) in zip(runs, out):
